@@ -32,6 +32,7 @@ type emitRule struct {
 	Rx    string
 	Need  []guardAtom
 	Args  []string
+	Range string // when set, the emission must be inside a `range` whose pipeline mentions this
 	Min   int
 	Why   string
 }
@@ -91,6 +92,9 @@ func checkEmitRules(c *Ctx, rule string, ev *tmpl.Evaluator, table []emitRule) {
 					if !tmpl.GuardHas(oc.Guards, a.Field, a.Pol) {
 						missing = append(missing, atomStr([]guardAtom{a}))
 					}
+				}
+				if er.Range != "" && !rangeGuard(oc.Guards, er.Range) {
+					missing = append(missing, "range "+er.Range)
 				}
 				if len(er.Args) > 0 {
 					args := l.CallArgs(oc.End - 1)
